@@ -281,3 +281,20 @@ Proof.
   { apply (i_freed _ _ I'). exists ob. split; [assumption|]. exact (all_freed s roots G o ob E). }
   unfold cnt. apply (NoDup_count_occ' Nat.eq_dec); [apply (i_nodup _ _ I')|assumption].
 Qed.
+
+(* ---- releasing some handles while others are kept ---- *)
+Theorem good_run_frame pin fuel : forall s todo extra, good pin s (todo ++ extra) ->
+  good pin (fst (run_release fuel s todo)) (snd (run_release fuel s todo) ++ extra).
+Proof.
+  induction fuel as [|f IH]; intros s todo extra G; destruct todo as [|o r]; cbn [run_release fst snd]; try assumption.
+  rewrite <- app_comm_cons in G. apply good_step in G. rewrite app_assoc in G. apply IH. assumption.
+Qed.
+
+Theorem good_release_frame pin s roots extra : good pin s (roots ++ extra) -> good pin (release_all s roots) extra.
+Proof.
+  intros G. unfold release_all. pose proof (good_run_frame pin (S (measure (hp s) roots)) s roots extra G) as H.
+  rewrite run_release_done in H by lia. assumption.
+Qed.
+
+Lemma good_cnt_ext pin s R R' : good pin s R -> (forall o, cnt o R = cnt o R') -> good pin s R'.
+Proof. intros [I T O] H. split; [eapply inv_cnt_ext; eassumption|assumption|assumption]. Qed.
